@@ -179,6 +179,12 @@ where
     U: Encoder<Error = EncodeError> + Decoder<Error = DecodeError>,
     <U as Encoder>::Item: 'static,
 {
+    /// Remember dispatcher error, first error is the one to report
+    fn set_error(&self, err: IoDispatcherError<P::Error>) {
+        let err = self.error.take().unwrap_or(err);
+        self.error.set(Some(err));
+    }
+
     fn handle_result(
         &self,
         item: Result<P::Response, P::Error>,
@@ -196,11 +202,11 @@ where
             self.base.set(self.base.get().wrapping_add(1));
             match item {
                 Err(err) => {
-                    self.error.set(Some(IoDispatcherError::Service(err)));
+                    self.set_error(IoDispatcherError::Service(err));
                 }
                 Ok(Some(item)) => {
                     if let Err(err) = io.encode(item, codec) {
-                        self.error.set(Some(IoDispatcherError::Encoder(err)));
+                        self.set_error(IoDispatcherError::Encoder(err));
                     }
                 }
                 Ok(None) => (),
@@ -212,11 +218,11 @@ where
                 self.base.set(self.base.get().wrapping_add(1));
                 match item {
                     Err(err) => {
-                        self.error.set(Some(IoDispatcherError::Service(err)));
+                        self.set_error(IoDispatcherError::Service(err));
                     }
                     Ok(Some(item)) => {
                         if let Err(err) = io.encode(item, codec) {
-                            self.error.set(Some(IoDispatcherError::Encoder(err)));
+                            self.set_error(IoDispatcherError::Encoder(err));
                         }
                     }
                     Ok(None) => (),
@@ -226,7 +232,7 @@ where
             err || queue.is_empty()
         } else {
             if let Err(err) = item {
-                self.error.set(Some(IoDispatcherError::Service(err)));
+                self.set_error(IoDispatcherError::Service(err));
             } else {
                 queue[idx] = ServiceResult::Ready(item);
             }
